@@ -55,7 +55,16 @@ MANIFEST = dict(
          "(start, size) after the loop); its users are decided on descriptors: the helper is given input[argsort(input)], exactly one entry per emitted "
          "pair is kept (comprehension without filter, or one unconditional append in a loop that cannot be left early), the entry is a member of the run "
          "(start or stop-1; flagged: the position of the largest flag found by a seeded scan over range(start[+1], stop) with a strictly-larger test whose "
-         "comparand is replaced together with the position, or start + argmax(flags[start:stop])), and what is returned is in Idx space.",
+         "comparand is replaced together with the position, or start + argmax(flags[start:stop])), and what is returned is in Idx space. "
+         "match is a function of the arrays of the call at hand: module-level names that a function of the module re-binds (global), stores into or "
+         "changes with a container method are state; a returned term or a sorter that reads such state (a remembered argsort, a cache keyed by object "
+         "identity) is a violation, and an identity test (`is`) on an array establishes none of the guards (arrays are mutable). "
+         "A run-start mask built with a cyclic shift (numpy.roll, the last element put in front, index p-1 for every p) compares the two ends of the "
+         "sorted array at the wrap-around entry: sorted position 0 (or the last run) is then kept only when the input holds two different values, a "
+         "violation unless that entry is overwritten with True. With the `values` switch fixed, every returning path of a de-duplication helper hands "
+         "back the same arrangement (one array, or the same number of things); the package's own unique(x, values=) is one index per distinct value / "
+         "the values at those indices; a flagged path that returns the plain de-duplication before the scan is accepted only where all flags have "
+         "been established equal.",
     note="Not decided: completeness for all arrays (numpy.searchsorted/argsort/unique semantics trusted); NaN handling.",
     technique="static analysis: path-wise symbolic execution to normalised terms (match, vectorised unique), index-space typing over "
               "expression descriptors with CFG control dependence (scan loops)",
@@ -380,6 +389,13 @@ def t_where3(c, a, b):
     return ("where3", c, a, b)
 
 
+def t_roll(x, k):
+    """numpy.roll(x, k) of a 1-d array: entry p is x[(p - k) mod n] -- the elements pushed out at one end come back in at the other"""
+    if k == K(0):
+        return x
+    return ("roll", x, k)
+
+
 def t_ss(a, v, side, sorter):
     if v[0] == "take" and is_indexlike(v[2]):
         # the search is element-wise in its probes: searchsorted(a, v[j]) = searchsorted(a, v)[j]
@@ -570,7 +586,14 @@ _ARRAYISH = ("a1d", "asarr", "argsort", "ss", "clamp", "where0", "take", "alloc"
 class SX:
     MAXPATHS = 400
 
-    def __init__(self, funcs, keep_calls=(), stop_at_loops=False, consts=None):
+    def __init__(self, funcs, keep_calls=(), stop_at_loops=False, consts=None, skip_loops=False):
+        self.module_names = set()       # names bound at module level (for stores into module-level state)
+        for f_ in funcs.values():
+            mn = getattr(f_, "_module_names", None)
+            if mn:
+                self.module_names = mn
+                break
+        self.skip_loops = skip_loops    # a loop statement of the function itself is stepped over: what it may bind or change becomes opaque
         self.funcs = funcs              # module-level name -> ast.FunctionDef
         self.consts = consts or {}      # module-level name bound once, at module level -> the expression it is bound to
         self._constbusy = set()
@@ -754,6 +777,21 @@ class SX:
             fr.env[st.name] = self.new(("opaque", "def " + st.name))
         elif isinstance(st, (ast.For, ast.While)) and self.stop_at_loops and self.depth == 0:
             raise _Loop(st.lineno)
+        elif isinstance(st, (ast.For, ast.While)) and self.skip_loops and self.depth == 0:
+            if any(isinstance(x, (ast.Return, ast.Yield, ast.YieldFrom, ast.Raise)) for x in ast.walk(st)):
+                raise Unsupported("a loop that can leave the function at line %d" % st.lineno)
+            for x in ast.walk(st):
+                tgt = None
+                if isinstance(x, ast.Name) and isinstance(x.ctx, (ast.Store, ast.Del)):
+                    tgt = x
+                elif isinstance(x, (ast.Subscript, ast.Attribute)) and isinstance(x.ctx, (ast.Store, ast.Del)):
+                    tgt = x.value
+                elif isinstance(x, ast.Call) and isinstance(x.func, ast.Attribute):
+                    tgt = x.func.value
+                while isinstance(tgt, (ast.Subscript, ast.Attribute)):
+                    tgt = tgt.value
+                if isinstance(tgt, ast.Name) and (tgt is x or tgt.id in fr.env):
+                    fr.env[tgt.id] = self.new(("opaque", "after the loop at line %d: %s" % (st.lineno, tgt.id)))
         else:
             raise Unsupported("%s at line %d" % (type(st).__name__, st.lineno))
 
@@ -776,6 +814,10 @@ class SX:
             else:
                 for k, x in enumerate(t.elts):
                     self._assign(x, self.new(("item", v, k)), fr, st)
+        elif isinstance(t, (ast.Subscript, ast.Attribute)) and self._module_level(t.value, fr) is not None:
+            # a store into module-level state (a table, an attribute of a module function): no local value changes, and what a later read of
+            # that state gives is an opaque ('global', name) / ('attr', ('func', name), ...) term anyway
+            self.events.append(("statestore", ("global", self._module_level(t.value, fr)), st.lineno, self._seq()))
         elif isinstance(t, ast.Subscript):
             if not (isinstance(t.value, ast.Name) and t.value.id in fr.env):
                 raise Unsupported("store into a non-local at line %d" % st.lineno)
@@ -785,6 +827,14 @@ class SX:
             self.events.append(("store", self.heap[r], st.lineno, self._seq()))
         else:
             raise Unsupported("assignment target %s at line %d" % (type(t).__name__, st.lineno))
+
+    def _module_level(self, e, fr):
+        """the module-level name a store target is rooted in (NAME[k], NAME.attr, NAME[k].attr ...) when NAME is not a local; else None"""
+        while isinstance(e, (ast.Subscript, ast.Attribute)):
+            e = e.value
+        if isinstance(e, ast.Name) and e.id not in fr.env and e.id not in ("np", "numpy") and (e.id in self.funcs or e.id in self.module_names):
+            return e.id
+        return None
 
     # -- expressions ---------------------------------------------------------
     def ev_index(self, e, fr):
@@ -918,6 +968,14 @@ class SX:
     def call_func(self, n, args, arefs, kw, krefs, e):
         if n == "unique" and len(args) == 1 and not kw:
             return ("uniqidx", _unperm(args[0]))         # the package's own unique: one index per distinct value
+        if n == "unique" and args and len(args) + len(kw) == 2:
+            # ... and with its second parameter (values=) set: the values at those indices instead of the indices
+            a = self.funcs[n].args
+            names = [x.arg for x in a.posonlyargs + a.args]
+            sw = args[1] if len(args) == 2 else (kw.get(names[1]) if len(names) == 2 else None)
+            if sw is not None and is_const(sw) and isinstance(sw[1], (bool, int)):
+                idx = ("uniqidx", _unperm(args[0]))
+                return t_take(args[0], idx) if sw[1] else idx
         if n in self.keep_calls or self.depth >= 3:
             r = ("call", n, tuple(args), tuple(sorted(kw.items())))
         else:
@@ -1071,6 +1129,8 @@ class SX:
             return t_take(args[0], args[1])
         if name in ("logical_not", "invert") and len(args) == 1:
             return ("inv", a0)
+        if name == "roll" and len(args) + len(kw) == 2 and set(kw) <= {"shift"} and args:
+            return t_roll(a0, args[1] if len(args) > 1 else kw["shift"])
         return ("call", "np." + name, tuple(args), tuple(sorted(kw.items())))
 
     def method_call(self, b, bref, name, args, kw, e):
@@ -1121,6 +1181,62 @@ class SX:
         return ("mcall", b, name, tuple(args), tuple(sorted(kw.items())))
 
 
+_MUTATORS = ("update", "append", "extend", "insert", "add", "setdefault", "pop", "popitem", "clear", "remove", "discard", "__setitem__",
+             "__delitem__", "move_to_end", "appendleft")
+
+
+def _module_state(tree, defs, consts):
+    """{name: how it is written} for the module-level names (module functions used as attribute holders included) that a function of the module
+    writes: re-binding under a `global` declaration, a store / delete through a subscript or an attribute, a call of a mutating container
+    method.  What such a name holds when a function reads it depends on the calls made before, not on the arguments of the call at hand"""
+    scope = set(defs)
+    for n in walk_no_nested(tree):
+        if isinstance(n, ast.Name) and isinstance(n.ctx, ast.Store):
+            scope.add(n.id)
+    out = {}
+
+    def base(x):
+        while isinstance(x, (ast.Subscript, ast.Attribute)):
+            x = x.value
+        return x.id if isinstance(x, ast.Name) else None
+    for fn in ast.walk(tree):
+        if not isinstance(fn, (ast.FunctionDef, ast.AsyncFunctionDef)):
+            continue
+        glob = {g for x in ast.walk(fn) if isinstance(x, ast.Global) for g in x.names}
+        local = {x.arg for x in ast.walk(fn) if isinstance(x, ast.arg)} | {x.id for x in ast.walk(fn) if isinstance(x, ast.Name) and isinstance(x.ctx, ast.Store)}
+        local -= glob
+        for x in ast.walk(fn):
+            if isinstance(x, ast.Name) and isinstance(x.ctx, (ast.Store, ast.Del)) and x.id in glob:
+                out.setdefault(x.id, "re-bound under `global %s` in %s() at line %d" % (x.id, fn.name, x.lineno))
+            elif isinstance(x, (ast.Subscript, ast.Attribute)) and isinstance(x.ctx, (ast.Store, ast.Del)):
+                b = base(x.value)
+                if b in scope and b not in local:
+                    out.setdefault(b, "stored into by %s() at line %d" % (fn.name, x.lineno))
+            elif isinstance(x, ast.Call) and isinstance(x.func, ast.Attribute) and x.func.attr in _MUTATORS:
+                b = base(x.func.value)
+                if b in scope and b not in local:
+                    out.setdefault(b, "changed with .%s() by %s() at line %d" % (x.func.attr, fn.name, x.lineno))
+    return out
+
+
+def state_reads(t, state):
+    """the reads of module-level state (see _module_state) inside a term: [text]"""
+    out = []
+    for x in subterms(t):
+        if isinstance(x, tuple) and len(x) >= 2:
+            if x[0] == "global" and x[1] in state and x[1] not in out:
+                out.append(x[1])
+            elif x[0] == "attr" and len(x) == 3 and isinstance(x[1], tuple) and x[1][:1] == ("func",) and x[1][1] in state:
+                n = "%s.%s" % (x[1][1], x[2])
+                if n not in out:
+                    out.append(n)
+            elif x[0] == "call" and x[1] == "getattr" and len(x) > 2 and len(x[2]) >= 2 and x[2][0][:1] == ("func",) and x[2][0][1] in state and is_const(x[2][1]):
+                n = "%s.%s" % (x[2][0][1], x[2][1][1])
+                if n not in out:
+                    out.append(n)
+    return out
+
+
 class RawModule:
     """the module as written (no rename-undo): every rule below finds its constructs through parameters, numpy callees and data flow"""
 
@@ -1151,6 +1267,10 @@ class RawModule:
         for n in ast.walk(self.tree):
             if isinstance(n, ast.Name) and isinstance(n.ctx, ast.Load) and n.id in mutable and id(n) not in reads:
                 self.consts.pop(n.id, None)
+        self.state = _module_state(self.tree, self.defs, self.consts)
+        names = {n.id for n in walk_no_nested(self.tree) if isinstance(n, ast.Name) and isinstance(n.ctx, ast.Store)} | set(self.state)
+        for d in self.defs.values():
+            d._module_names = names
 
     def func(self, name):
         if name not in self.defs:
@@ -1325,6 +1445,42 @@ def neighbour_test(t, a):
     return None
 
 
+def _cyclic_forms(whole):
+    """the ways of writing `whole` shifted by one place with wrap-around: ([predecessor of every entry, the LAST entry standing before entry 0],
+    [successor of every entry, the FIRST entry standing after the last one])"""
+    n = t_size(whole)
+    last, first = t_take(whole, K(-1)), t_take(whole, K(0))
+    prev = [("roll", whole, K(1)),
+            ("concat", t_take(whole, ("slice", K(-1), NONE, NONE)), t_take(whole, SL_PREV)),
+            ("concat", ("list", last), t_take(whole, SL_PREV)), ("concat", ("tuple", last), t_take(whole, SL_PREV)),
+            ("concat", last, t_take(whole, SL_PREV)),
+            t_take(whole, ("binop", "+", ("arange", n), K(-1)))]
+    nxt = [("roll", whole, K(-1)),
+           ("concat", t_take(whole, SL_NEXT), t_take(whole, ("slice", NONE, K(1), NONE))),
+           ("concat", t_take(whole, SL_NEXT), t_take(whole, ("slice", K(0), K(1), NONE))),
+           ("concat", t_take(whole, SL_NEXT), ("list", first)), ("concat", t_take(whole, SL_NEXT), ("tuple", first)),
+           ("concat", t_take(whole, SL_NEXT), first)]
+    return prev, nxt
+
+
+def _cyclic_mask(m, a):
+    """m compares every element of `a` (base 'sorted': in sorted order, 'raw': as given) with a neighbour taken *cyclically* (numpy.roll, the last
+    element put in front, index p-1 for every p including 0): (relation earlier?later, base, 'prev' | 'next').  Unlike x[1:] ? x[:-1] such a mask
+    has one entry per element, and the entry at the wrap-around (entry 0 for 'prev', the last entry for 'next') compares the two ENDS of the array
+    with each other"""
+    if not (isinstance(m, tuple) and m and m[0] == "cmp" and m[1] in ("eq", "ne", "lt", "le")):
+        return None
+    for base, nxt, prv, whole in _neighbours(a):
+        pf, nf = _cyclic_forms(whole)
+        for which, forms in (("prev", pf), ("next", nf)):
+            for f in forms:
+                if (m[2], m[3]) == (f, whole):
+                    return (m[1] if which == "prev" else _REV.get(m[1], m[1])), base, which
+                if (m[2], m[3]) == (whole, f):
+                    return (_REV.get(m[1], m[1]) if which == "prev" else m[1]), base, which
+    return None
+
+
 def neighbour_cmp(t, a):
     """(relation, base) of neighbour_test, however the test is computed"""
     r = neighbour_test(t, a)
@@ -1401,6 +1557,8 @@ def fact_kind(t, v, a1, a2, pres):
         return "other"              # asks whether the search found a position past the end: what follows from it is decided where the clamp is
     if h == "cmp":
         op, l, r = t[1:]
+        if op in ("is", "isnot"):
+            return "other"          # which object an array is says nothing about what it holds (arrays are mutable): none of the guards
         u = ("size", ("unique", a1))
         if {l, r} == {u, n1}:
             if (op == "eq" and v) or (op == "ne" and not v):
@@ -1488,7 +1646,7 @@ def match_rules(chk, mod):
         rets = [p for p in paths if p.kind == "return"]
         V.add("returns[presorted=%s]" % pres, bool(rets) or None, "match has a returning path", fi.where())
         for p in rets:
-            _match_path(V, fi, p, pres, a1, a2)
+            _match_path(V, fi, p, pres, a1, a2, mod.state)
         if not flag:
             break
     V.emit(chk, "R06.2", q)
@@ -1504,7 +1662,8 @@ def match_rules(chk, mod):
     chk.ob("R06.3", mm.qualname + "::delegates", ok, mm.where(), "match_multi delegates to match with the same two arrays")
 
 
-def _match_path(V, fi, p, pres, a1, a2):
+def _match_path(V, fi, p, pres, a1, a2, state=None):
+    state = state or {}
     tag = "[presorted=%s]" % pres
     w = "%s:%s" % (fi.where().rsplit(":", 1)[0], p.line)
     wf = fi.where()
@@ -1536,6 +1695,13 @@ def _match_path(V, fi, p, pres, a1, a2):
           "or strictly increasing neighbours in sorted order)", a1)
     guard("nonempty1", "empty-rejected::first", "an empty first array is rejected", ("size", a1))
     guard("nonempty2", "empty-rejected::second", "an empty second array is rejected", ("size", a2))
+    # -- the pairs are a function of the two arrays of this call ----------------
+    sr = state_reads(r, state)
+    V.add("result-computed-from-this-calls-arrays" + tag, not sr,
+          "the returned pairs are computed from the arrays (and the presorted switch) of the call at hand, never from module-level state left by an "
+          "earlier call: an array can be changed in place between two calls, so nothing remembered about it (its sort order, that its values were "
+          "distinct) is known to hold still%s" % ("" if not sr else "; the path returning at line %d reads %s" % (
+              p.line, "; ".join("`%s` (%s)" % (n, state.get(n.split(".")[0], "module-level state")) for n in sr))), w)
 
     if r[0] == "tuple" and len(r) == 3 and r[1][0] == "where0" and r[2][0] != "where0":
         V.add("returns-pairs" + tag, False, "returns (indices into first, indices into second) in this order; found %s" % short(r), w)
@@ -1619,14 +1785,19 @@ def _match_path(V, fi, p, pres, a1, a2):
         return
     V.add("search-side-left" + tag, True if side == K("left") else (False if is_const(side) else None),
           "left-side search (an equal element is found at its own position): side=%s" % show(side), ws)
+    stale = state_reads(sorter, state)
     if sorter == s:
         oks = True
     elif sorter == NONE:
         oks = True if pres else False
+    elif stale and not contains(sorter, a1) and not contains(sorter, ("param", fi.params[0])):
+        oks = False             # a permutation that was not computed from the first array of this call
     else:
         oks = None
-    V.add("sorter" + tag, oks, "presorted=%s: the search runs over the first array %s (sorter %s)"
-          % (pres, "as given or through its argsort" if pres else "through its argsort", show(sorter)), ws)
+    V.add("sorter" + tag, oks, "presorted=%s: the search runs over the first array %s (sorter %s)%s"
+          % (pres, "as given or through its argsort" if pres else "through its argsort", show(sorter),
+             "" if not stale else " -- the sorter is read from module-level state (%s), not computed from the first array of this call: after the array "
+             "was changed in place it no longer sorts it" % ", ".join("`%s` %s" % (n, state.get(n.split(".")[0], "")) for n in stale)), ws)
     if oks is not True:
         return
     mapped = sorter == s
@@ -1695,7 +1866,55 @@ def _match_path(V, fi, p, pres, a1, a2):
 # ---------------------------------------------------------------------------
 # de-duplication helpers
 # ---------------------------------------------------------------------------
+_ONE_VALUE = ("take", "uniqidx", "argsort", "where0", "alloc", "setitem", "sorted", "concat", "arr", "asarr", "a1d", "param", "unique", "binop",
+              "clamp", "ss", "size", "roll", "max", "min", "arange")
+
+
+def _arrangement(t):
+    """how many things a returned term hands to the caller: 'a sequence of N', 'one value', 'nothing (None)'; None when that cannot be told"""
+    if not isinstance(t, tuple) or not t:
+        return None
+    if t[0] in ("tuple", "list"):
+        return "a sequence of %d" % (len(t) - 1)
+    if t == NONE:
+        return "nothing (None)"
+    if t[0] in _ONE_VALUE or t[0] == "const":
+        return "one value"
+    return None
+
+
+def _return_arrangement(chk, mod, fi, narr):
+    """what the caller gets back depends on the `values` switch alone, never on the data: with the switch fixed, every returning path hands back
+    the same arrangement (the indices alone, or the same number of things beside them).  A path that returns one array where the others return
+    (indices, values) leaves the caller unpacking the wrong thing -- no index per distinct value reaches it"""
+    q = fi.qualname
+    vflag = "values" if "values" in fi.params else (fi.params[narr] if len(fi.params) > narr else None)
+    for vals in (False, True):
+        try:
+            paths = SX(mod.defs, consts=mod.consts, skip_loops=True).run(fi.node, {vflag: K(vals)} if vflag else {})
+        except (Unsupported, RecursionError):
+            return
+        known = [(_arrangement(p.value), p) for p in paths if p.kind == "return"]
+        known = [(sh, p) for sh, p in known if sh is not None]
+        groups = {}
+        for sh, p in known:
+            groups.setdefault(sh, []).append(p)
+        if len(known) >= 2:
+            main = max(groups, key=lambda k: (len(groups[k]), max(p.line for p in groups[k])))
+            odd = [(sh, p) for sh, p in known if sh != main]
+            tag = "[%s=%s]" % (vflag, vals) if vflag else ""
+            msg = "with the %s every returning path hands back the same arrangement (here: %s, as the path returning at line %d does)" % (
+                "switch `%s` set to %s" % (vflag, vals) if vflag else "same arguments", main, max(p.line for p in groups[main]))
+            if odd:
+                sh, p = odd[0]
+                msg += "; the path returning at line %d hands back %s: `%s` -- which of the two the caller receives depends on the data" % (p.line, sh, short(p.value))
+            chk.ob("R06.1", q + "::return-arrangement" + tag, not odd, "%s:%s" % (fi.where().rsplit(":", 1)[0], odd[0][1].line) if odd else fi.where(), msg)
+        if not vflag:
+            break
+
+
 def dedup_rules(chk, mod, fi, narr):
+    _return_arrangement(chk, mod, fi, narr)
     helpers = _run_helper_names(mod)
     if _uses_run_helper(mod, fi.node, helpers):
         # the runs of equal values come from a shared helper that emits their bounds: the helper and its user are decided separately
@@ -1825,7 +2044,7 @@ def _early_paths(chk, mod, fi, narr, early):
             w = "%s:%s" % (fi.where().rsplit(":", 1)[0], p.line)
             r = p.value
             if narr != 1:
-                V.add("recognised", None, "a path of the flagged de-duplication that returns without scanning is not a form this check knows; found %s" % short(r), w)
+                _flagged_early(V, r, a, ("param", fi.params[1]), p.facts, w)
                 continue
             if r[0] == "take" and r[1] == a:
                 r = r[2]                 # the values at the kept indices
@@ -1834,6 +2053,48 @@ def _early_paths(chk, mod, fi, narr, early):
         if not vflag:
             break
     V.emit(chk, "R06.1", q)
+
+
+def _all_flags_equal(t, v, fl):
+    """the decided test `t is v` establishes that all entries of the flag array are equal: min == max, all(flag == flag[0]), one distinct flag"""
+    if not isinstance(t, tuple) or not t:
+        return False
+    lo, hi = ("min", fl), ("max", fl)
+    if t[0] == "cmp":
+        op, l, r = t[1:]
+        if {l, r} == {lo, hi}:
+            return (op == "eq" and bool(v)) or (op == "ne" and not v) or (op == "lt" and l == lo and not v) or (op == "le" and l == hi and bool(v))
+        one = [("size", ("unique", fl)), ("size", ("uniqidx", fl))]
+        if (l in one and r == K(1)) or (r in one and l == K(1)):
+            return (op == "eq" and bool(v)) or (op == "ne" and not v) or (op == "le" and r == K(1) and bool(v)) or (op == "lt" and l == K(1) and not v)
+        return False
+    if t[0] == "all" and v:
+        return t[1] in (t_cmp("eq", fl, t_take(fl, K(0))), t_cmp("eq", fl, t_take(fl, K(-1))), t_cmp("eq", t_take(fl, SL_NEXT), t_take(fl, SL_PREV)))
+    if t[0] == "any" and not v:
+        return t[1] in (t_cmp("ne", fl, t_take(fl, K(0))), t_cmp("ne", fl, t_take(fl, K(-1))), t_cmp("ne", t_take(fl, SL_NEXT), t_take(fl, SL_PREV)))
+    return False
+
+
+def _flagged_early(V, r, a, fl, facts, w):
+    """a path of the flagged de-duplication that returns before the scan.  Known form: the plain de-duplication of the values (the package's own
+    unique) on a path that has established that all flags are equal -- then whichever index of a value is kept carries the largest flag"""
+    idx = r
+    if r[0] == "tuple" and len(r) == 3 and r[2] == t_take(a, r[1]):
+        idx = r[1]              # (indices, values at those indices)
+    elif r[0] == "take" and r[1] == a:
+        idx = r[2]              # the values at the kept indices; whether indices must come with them is the return-arrangement rule
+    while idx[0] == "sorted":
+        idx = idx[1]
+    if r[0] == "tuple" and len(r) == 3 and r[1] == t_take(a, r[2]) and r[1] != r[2]:
+        V.add("indices-before-values", False, "the indices come first and the values at those indices second; found %s" % short(r), w)
+        return
+    if idx == ("uniqidx", a):
+        eq = any(_all_flags_equal(t, v, fl) for t, v, _ in facts)
+        V.add("plain-dedup-only-when-flags-cannot-decide", True if eq else (None if facts else False),
+              "a path that keeps one index per value without looking at the flags is taken only when the flags cannot decide between duplicates "
+              "(all flags equal)%s" % ("" if eq else "; tests passed on this path: %s" % ("; ".join("%s is %s" % (short(t, 60), v) for t, v, _ in facts) or "none")), w)
+        return
+    V.add("recognised", None, "a path of the flagged de-duplication that returns without scanning is not a form this check knows; found %s" % short(r), w)
 
 
 def _fast_path(chk, mod, fi, narr, split):
@@ -1916,6 +2177,26 @@ def _pos_runstarts(t, a):
     if not isinstance(t, tuple) or not t:
         return None
     m = t[1] if t[0] == "where0" else t         # x[where(mask)[0]] and x[mask] are the same selection
+    cy = _cyclic_mask(m, a)
+    if cy is not None:
+        rel, base, which = cy
+        if base == "raw":
+            return "unsorted"
+        if which == "prev":
+            if rel == "ne":
+                return "cyclic0"            # run starts p >= 1, and position 0 only when the smallest value differs from the largest
+            if rel == "lt":
+                return "rest"               # entry 0 asks largest < smallest: never true
+        else:
+            if rel == "ne":
+                return "cyclicN"            # the last position of every run but the last, which is kept only when largest != smallest
+            if rel == "lt":
+                return "offby1"             # the last entry asks largest < smallest: never true
+        return None
+    if t[0] == "setitem" and t[2] == K(0) and t[3] == K(True):
+        cy = _cyclic_mask(t[1], a)
+        if cy is not None and cy[1:] == ("sorted", "prev") and cy[0] in ("ne", "lt"):
+            return "all"                    # the wrap-around entry overwritten: position 0 is kept whatever the values are
     if _change_mask(m, a) == "sorted":
         return "offby1"
     if _change_mask(m, a) == "raw":
@@ -2024,6 +2305,16 @@ def _vector_kept(V, r, a, w):
             V.add(k0, True, m0, w)
             V.add(kr, True, mr, w)
             V.add(ki, True, mi, w)
+            return
+        if k == "cyclic0":
+            V.add(k0, False, m0 + " and it is kept whatever the values are; found %s: entry 0 of the mask compares the smallest element with the LAST "
+                  "sorted element (the shift wraps around), so sorted position 0 is kept only when the input holds two different values -- for a constant "
+                  "or one-element input no index at all is returned" % short(r[2]), w)
+            return
+        if k == "cyclicN":
+            V.add(kr, False, mr + "; found %s: every element is compared with its successor and the last one with the FIRST sorted element (the shift "
+                  "wraps around), so the last run is kept only when the input holds two different values -- for a constant or one-element input no "
+                  "index at all is returned" % short(r[2]), w)
             return
         V.add(kr, False if k in ("rest", "offby1", "unsorted") else None, mr + "; found %s" % short(r), w)
         return
